@@ -73,7 +73,8 @@ def lifecycle_case(r, max_clients=3):
             g.ops.append("clistep %d %d" % (j, now))
             if r.random() < 0.9:
                 g.ops.append("pfwd %d %d %d %d" % (j, drop, dup, r.randrange(2 ** 31)))
-        g.nonce()
+        for _ in range(nc):
+            g.nonce()
         g.ops.append("srvstep %d" % now)
         for j in range(nc):
             b = r.random()
@@ -230,9 +231,12 @@ def amplify_case(r):
                 mps = r.choice([100, 100, U32 - 1]); mra = r.choice([1000000, 1000000, 0])
                 g.ops.append("psend %d syn %d %d 2000000 %d %d" % (k, v, r.randrange(U32), mps, mra))
             elif a < 0.6:
-                # undersized / oversized connection requests with a correct CRC cannot be expressed as frame specs:
-                # send raw bytes (type 0 + short payload); the CRC is almost surely wrong, as for a truncated SYN
-                g.ops.append("psendraw %d 00%s" % (k, "".join("%02x" % r.randrange(256) for _ in range(r.choice([4, 17, 21, 100])))))
+                # undersized connection requests: type 0, version 3, nonce, limits, then too little (or no) padding;
+                # with a correct CRC (psendfix) or as a truncated datagram with a stale CRC (psendraw)
+                g.nonce()
+                body = "0003" + "".join("%02x" % r.randrange(256) for _ in range(4)) + "001e8480" + "00000064" + "000f4240"
+                body += "00" * r.choice([0, 0, 1, 4, 100, 1000, 1449])
+                g.ops.append("%s %d %s" % (r.choice(["psendfix", "psendfix", "psendraw"]), k, body))
             elif a < 0.8:
                 g.ops.append(r.choice(["psend %d hsack %d" % (k, r.randrange(U32)), "psend %d disc" % k, "psend %d discack" % k,
                                        "psend %d sync 5 6" % k, "psend %d acks 1 2 0" % k,
